@@ -288,14 +288,15 @@ def preserveRedirs (t : FdTable) (saved : List SavedFd) : FdTable := saved.foldl
 
 /-! ### descriptors the shell opens for itself: `move_fd_internal` and the `.` built-in -/
 
-/-- `yash_env::io::move_fd_internal`: a descriptor already at or above `MIN_INTERNAL_FD` stays;
-    otherwise `dup(from, MIN_INTERNAL_FD, CLOEXEC)` and then `close(from)` **whether or not the dup
-    succeeded**; the result is the dup's (`none` = its errno) -/
+/-- `yash_env::io::move_fd_internal`, over what the translator reads off it (`moveThreshold`,
+    `moveMin`, `moveCloexec`, `moveClosesOnFailure`): a descriptor at or above the threshold stays;
+    otherwise `dup(from, moveMin, moveCloexec)` and then `close(from)` — also when the dup failed iff
+    `moveClosesOnFailure`; the result is the dup's (`none` = its errno) -/
 def moveFdInternal (o : Oracle W) (w : W) (t : FdTable) (src : Fd) : W × FdTable × Option Fd :=
-  if minInternalFd ≤ src then (w, t, some src) else
-  match t.dup src minInternalFd true (o.deny w).2 with
+  if moveThreshold ≤ src then (w, t, some src) else
+  match t.dup src moveMin moveCloexec (o.deny w).2 with
   | .ok (n, t1) => ((o.deny w).1, t1.close src, some n)
-  | .error _ => ((o.deny w).1, t.close src, none)
+  | .error _ => ((o.deny w).1, if moveClosesOnFailure then t.close src else t, none)
 
 /-- `yash-builtin/src/source/semantics.rs` `open_file`: `open(path, ReadOnly, O_CLOEXEC)` on the
     lowest free descriptor (EMFILE checked first), then `move_fd_internal` -/
